@@ -18,7 +18,7 @@ ASSUMPTIONS = ["per-run wall cap 60 s stands for 'terminates'", "parameter menus
 THOROUGH_CAP_S = 2400.0
 
 MENU = dict(r1=[700, 5000], b1=[0, 3], p=[1, 10], md=[1400, 60000], r2=[50, 1000], b2=[0], ma=[0, 50000], pt=[0, 1000], d=[0, 9000],
-            ms=[1], bs=[0], diff=[0], sj=[0], ss=[1])
+            ms=[1], bs=[0], diff=[0], sj=[0], ss=[1], c=[2, 16])
 
 
 def settings(maxdev):
@@ -67,6 +67,11 @@ def catalogue():
     W.append(('close-labels', [R], [(5, 400.0, [0.0, 100.0, 200.0, 300.0])], goodr))
     W.append(('only-unalignable', [R2], [(5, 5000.0, [100.0]), (7, 50000.0, [100.0, 20000.0]), long_q], None))
     W.append(('no-similarity', [R2], [(5, 150000.0, [0.0, 2100.0, 4300.0, 6400.0, 8600.0, 10700.0, 140000.0])], None))
+    W.append(('only-unlabelled-references', [(4, 50000.0, []), (6, 70000.0, [])], [], good))
+    W.append(('reference-id-filter-matches-nothing', [R], [], good, ['-rId', '99']))
+    W.append(('query-id-filter-matches-nothing', [R], [], good, ['-qId', '99']))
+    W.append(('header-only-reference-file', [], [], good))
+    W.append(('header-only-query-file', [R], [], None))
     W.append(('chimeric-with-unplaceable-fragment', [R], [worlds.as_map(5, worlds.apply_edit(list(good[2]), ('chimera', [0.0, 2300.0, 4700.0, 7000.0, 9400.0, 11700.0, 14100.0, 16400.0], 30000.0)))], goodr))
     return W
 
@@ -112,20 +117,22 @@ def file_problems(world, obs):
 
 def check_case(wi, setting, mode, acc, cat=None):
     cat = cat or catalogue()
-    name, refs, degs, good = cat[wi]
+    name, refs, degs, good = cat[wi][:4]
+    wargs = list(cat[wi][4]) if len(cat[wi]) > 4 else []
     found = []
     case = dict(world=wi, name=name, setting=list(setting), mode=mode)
     variants = []
-    if degs:
+    if degs or good is None:
         variants.append(('degenerate-alone', degs))
     if good is not None:
         variants.append(('with-neighbour', list(degs) + [good]))
-        variants.append(('neighbour-alone', [good]))
+        if degs:
+            variants.append(('neighbour-alone', [good]))
     kept = {}
     zero_seen = False
     for vname, qs in variants:
         w = dict(refs=refs, queries=qs)
-        obs = run_checked(w, mode, setting)
+        obs = run_checked(w, mode, list(setting) + wargs)
         if obs.error:
             found.append(('run-aborted', '%s [%s] %s' % (name, vname, obs.error), obs.error.split(' @ ')[-1] if ' @ ' in obs.error else 'run',
                           {'error': obs.error.split(':')[0]}))
@@ -157,11 +164,12 @@ def check_case(wi, setting, mode, acc, cat=None):
 
 def check_cli(wi, acc, cat=None):
     cat = cat or catalogue()
-    name, refs, degs, good = cat[wi]
+    name, refs, degs, good = cat[wi][:4]
+    wargs = list(cat[wi][4]) if len(cat[wi]) > 4 else []
     qs = list(degs) + ([good] if good is not None else [])
     found = []
     case = dict(world=wi, name=name, cli=True)
-    rc, err, files = driver.run_cli(dict(refs=refs, queries=qs), 'all', cpus=2)
+    rc, err, files = driver.run_cli(dict(refs=refs, queries=qs), 'all', extra=wargs, cpus=(2, 3, 16)[wi % 3])
     if rc != 0 or 'Traceback' in err:
         last = [l for l in err.strip().splitlines() if l.strip()][-1:] or ['']
         found.append(('cli-aborted', '%s: exit %s: %s' % (name, rc, last[0][:300]), 'cli', {'error': last[0].split(':')[0]}))
